@@ -227,8 +227,13 @@ func (z *zoneGen) service(qname string, host string) {
 		h := &zoneh.HTTPS{Priority: 1 + r.IntN(5)}
 		if r.IntN(3) == 0 {
 			z.shape["target"] = true
-			h.Target = []string{"svc1.example.net", "svc2.example.net", "unresolvable.example.net"}[r.IntN(3)]
-			if h.Target != "unresolvable.example.net" {
+			// a named target - which may be the very host the record is about (zone editors write the
+			// owner name out instead of ".")
+			h.Target = []string{"svc1.example.net", "svc2.example.net", "unresolvable.example.net", host}[r.IntN(4)]
+			if h.Target == host {
+				z.shape["target-self"] = true
+			}
+			if h.Target != "unresolvable.example.net" && h.Target != host {
 				z.addrs(h.Target)
 			}
 		}
@@ -360,26 +365,37 @@ func genC14(env *core.Env, emit func(core.Case)) {
 		}
 		portClass := []string{"none", "0", "80", "443", "8443", "65535", "08443", "0443", "000025"}[r.IntN(9)] // a port may be written with leading zeros
 		schemeClass := []string{"none", "none", "http", "https", "HTTPS", "foo", "long", "label-limit"}[r.IntN(8)]
-		input := host
-		hp := host
-		if portClass != "none" {
-			if strings.Contains(host, ":") && !strings.HasPrefix(host, "[") {
-				hp = "[" + host + "]"
+		labelLimit := 61 + r.IntN(4)
+		build := func(host string) string {
+			input := host
+			hp := host
+			if portClass != "none" {
+				if strings.Contains(host, ":") && !strings.HasPrefix(host, "[") {
+					hp = "[" + host + "]"
+				}
+				hp = hp + ":" + portClass
+				input = hp
 			}
-			hp = hp + ":" + portClass
-			input = hp
+			switch schemeClass {
+			case "none":
+			case "long":
+				input = strings.Repeat("x", 300) + "://" + hp + "/path"
+			case "label-limit":
+				// "_"+scheme is one label of the query name: 62 characters fit, 63 and more do not
+				input = strings.Repeat("s", labelLimit) + "://" + hp + "/path"
+			default:
+				input = schemeClass + "://" + hp + "/p?q=1"
+			}
+			return input
 		}
-		switch schemeClass {
-		case "none":
-		case "long":
-			input = strings.Repeat("x", 300) + "://" + hp + "/path"
-		case "label-limit":
-			// "_"+scheme is one label of the query name: 62 characters fit, 63 and more do not
-			input = strings.Repeat("s", 61+r.IntN(4)) + "://" + hp + "/path"
-		default:
-			input = schemeClass + "://" + hp + "/p?q=1"
-		}
+		input := build(host)
 		args, scheme, pname, pport := parsedArgs(input)
+		if hostClass == "normal" && r.IntN(5) == 0 {
+			// the same host written as an absolute name ("www.example.com."): the same lookups, the same
+			// answers. The model is given the name without the dot; the implementation gets it with the dot.
+			hostClass = "absolute"
+			input = build(host + ".")
+		}
 		// zone
 		z := &zoneGen{r: r, u: zoneh.Universe{}, shape: map[string]bool{}}
 		svcb := pname
@@ -388,9 +404,16 @@ func genC14(env *core.Env, emit func(core.Case)) {
 		} else if scheme != "https" {
 			svcb = fmt.Sprintf("_%s.%s", scheme, pname)
 		}
-		if hostClass == "normal" || hostClass == "edge255" {
+		if hostClass == "normal" || hostClass == "absolute" || hostClass == "edge255" {
 			z.https(svcb, pname)
 			z.addrs(pname)
+		}
+		if hostClass == "absolute" && z.shape["aliasloop"] {
+			// an absolute name aliased back to itself is recognised as a loop one step later than the same
+			// name written without the dot (the loop set holds names as written): still bounded, but not
+			// the same query log, so the "absolute == relative" reading of the model does not apply
+			hostClass = "normal"
+			input = build(host)
 		}
 		// a response echoing a question name of more than 254 characters cannot be decoded by the
 		// package (255-octet budget): such lookups fail at the transport level
